@@ -58,7 +58,7 @@ def build_dask(c):
     xx, dst, ids, rkw = _setup(c)
     sch = (tuple(c["sy"]), tuple(c["sx"]))
     if xx.ndim == 3:
-        sch = ((1,) * xx.shape[0],) + sch
+        sch = (tuple(c["cfg"].get("tchunks") or (1,) * xx.shape[0]),) + sch
     xd = xx.chunk(dict(zip(xx.dims, sch)))
     chunks = (tuple(c["dy"]), tuple(c["dx"]))
     yy = xd.odc.reproject(dst, chunks=chunks, **rkw)
@@ -151,7 +151,7 @@ def run(ctx):
     ctx.traces_validated = len(events)
     ctx.extra["domain_cases_total"] = total
     ctx.rule = ("cases = same-CRS pairs (scales {1,-1,2,1/2,3/2}, shifts with residues {0,+-1/16,1/4}, 90deg rotation, overlapping to disjoint) and the same pairs across the "
-                "exact-translation CRS x 3 source/destination chunkings (incl. 1-pixel chunks) x 7 dtype/nodata/time-axis configurations, each computed in memory, with dask's default order, "
+                "exact-translation CRS x 3 source/destination chunkings (incl. 1-pixel chunks) x 11 dtype/nodata/time-axis configurations (both nodata values set and different, non-dividing time chunks), each computed in memory, with dask's default order, "
                 "with TLC-chosen task orders of the exported graph, and on a thread pool; non-trivial = some destination pixel is covered; distinct by (case, order)")
     ctx.assumptions = ["pairs with a destination pixel centre exactly on a source pixel boundary (ties) are not generated",
                        "cross-CRS through the exact tmerc family, so the first-principles nearest-neighbour model applies there as well"]
